@@ -155,6 +155,146 @@ func parserEntryFuncs(e *Env, rule, pkg string) []*ssa.Function {
 			out = append(out, f)
 		}
 	}
+	// … and the entry points of any other shape added later: exported functions and methods that take a text and can
+	// refuse it (see lateTextEntries)
+	for _, f := range lateTextEntries(e, pkg) {
+		if !seen[f] {
+			seen[f] = true
+			out = append(out, f)
+		}
+	}
+	return out
+}
+
+// notTextEntries: exported functions of today's tree that take a string and return an error without scanning a text
+// (one line of reason each); everything else of that shape is an entry point.
+var notTextEntries = map[string][]string{
+	"size": {"New"}, // the unit is a key looked up in the unit table; the number is not text
+}
+
+// lateTextEntries: exported functions of the package and exported methods of its types that are not among the
+// recorded entry points, take a string or []byte (or ParserInput-typed) parameter, return an error last and hand
+// back no text (a formatter's buffer is not an input): a parsing, validating or decoding entry point this checker
+// was not written against. They join the entry set of C17 and C18.
+func lateTextEntries(e *Env, pkg string) []*ssa.Function {
+	sp := e.P.ByName[pkg]
+	if sp == nil {
+		return nil
+	}
+	known := map[string]bool{}
+	for _, n := range parserEntries[pkg] {
+		known[n] = true
+	}
+	for _, n := range notTextEntries[pkg] {
+		known[n] = true
+	}
+	for _, m := range unmarshalMethods {
+		if m[0] == pkg {
+			known[m[1]+"."+m[2]] = true
+		}
+	}
+	isText := func(t types.Type) bool {
+		switch u := t.Underlying().(type) {
+		case *types.Basic:
+			return u.Info()&types.IsString != 0
+		case *types.Slice:
+			b, ok := u.Elem().Underlying().(*types.Basic)
+			return ok && b.Kind() == types.Uint8
+		}
+		return false
+	}
+	qualifies := func(f *ssa.Function, firstParam int) bool {
+		if f == nil || f.Object() == nil || !f.Object().Exported() || len(f.Blocks) == 0 {
+			return false
+		}
+		res := f.Signature.Results()
+		if res.Len() == 0 || !types.Identical(res.At(res.Len()-1).Type(), types.Universe.Lookup("error").Type()) {
+			return false
+		}
+		for i := 0; i < res.Len(); i++ {
+			if isText(res.At(i).Type()) {
+				return false
+			}
+		}
+		for _, p := range f.Params[firstParam:] {
+			if isText(p.Type()) {
+				return true
+			}
+		}
+		return false
+	}
+	var out []*ssa.Function
+	var names []string
+	for n := range sp.Members {
+		names = append(names, n)
+	}
+	sort.Strings(names)
+	for _, n := range names {
+		switch m := sp.Members[n].(type) {
+		case *ssa.Function:
+			if !known[n] && len(inputParams(m)) == 0 && qualifies(m, 0) {
+				out = append(out, m)
+			}
+		case *ssa.Type:
+			nt, ok := m.Type().(*types.Named)
+			if !ok || !m.Object().Exported() {
+				continue
+			}
+			for _, recv := range []types.Type{nt, types.NewPointer(nt)} {
+				ms := e.P.SSA.MethodSets.MethodSet(recv)
+				for i := 0; i < ms.Len(); i++ {
+					sel := ms.At(i)
+					if known[n+"."+sel.Obj().Name()] || sel.Obj().Pkg() != sp.Pkg {
+						continue
+					}
+					if _, isPtr := sel.Recv().(*types.Pointer); isPtr != (recv != types.Type(nt)) {
+						continue
+					}
+					fn := e.P.SSA.MethodValue(sel)
+					if fn == nil || fn.Synthetic != "" {
+						continue
+					}
+					if qualifies(fn, 1) {
+						dup := false
+						for _, o := range out {
+							if o == fn {
+								dup = true
+							}
+						}
+						if !dup {
+							out = append(out, fn)
+						}
+					}
+				}
+			}
+		}
+	}
+	return out
+}
+
+// textParamIndices: the text parameters of an entry point: inputParams, or — for the later, non-generic ones — every
+// string / []byte parameter behind the receiver.
+func textParamIndices(f *ssa.Function) []int {
+	if pis := inputParams(f); len(pis) > 0 {
+		return pis
+	}
+	first := 0
+	if f.Signature.Recv() != nil {
+		first = 1
+	}
+	var out []int
+	for i := first; i < len(f.Params); i++ {
+		switch u := f.Params[i].Type().Underlying().(type) {
+		case *types.Basic:
+			if u.Info()&types.IsString != 0 {
+				out = append(out, i)
+			}
+		case *types.Slice:
+			if b, ok := u.Elem().Underlying().(*types.Basic); ok && b.Kind() == types.Uint8 {
+				out = append(out, i)
+			}
+		}
+	}
 	return out
 }
 
@@ -451,15 +591,37 @@ func ruleLimit(e *Env, ruleName string, pkgs ...string) {
 				fs = append(fs, f)
 			}
 		}
+		// entry points added beside the recorded ones may delegate to those (the text methods, the parser entries)
+		late := map[*ssa.Function]bool{}
+		for _, f := range lateTextEntries(e, pkg) {
+			late[f] = true
+		}
+		guarded := map[*ssa.Function]bool{}
+		for _, f := range fs {
+			if !late[f] {
+				guarded[flow.Origin(f)] = true
+			}
+		}
+		for _, m := range unmarshalMethods {
+			if m[0] == pkg && (m[2] == "UnmarshalText" || m[2] == "UnmarshalJSON") {
+				if f := e.P.Method(m[0], m[1], m[2]); f != nil {
+					guarded[flow.Origin(f)] = true
+				}
+			}
+		}
 		e.Flow(func(c *flow.Ctx) {
 			for _, f := range fs {
 				// every text parameter (the compare and latest helpers take two); index 0 in the recorded single-input entries
-				pis := inputParams(f)
+				pis := textParamIndices(f)
 				if len(pis) == 0 {
 					pis = []int{0}
 				}
 				for _, pi := range pis {
-					c.RuleLimitFirst(f, pi, sent, 0)
+					if late[f] {
+						c.RuleLimitLate(f, pi, sent, guarded, e.V(pkg, "Parser"))
+					} else {
+						c.RuleLimitFirst(f, pi, sent, 0)
+					}
 				}
 			}
 			c.RuleLimitZero(e.PkgFuncs(pkg), "MaxInputLength")
@@ -623,4 +785,79 @@ func knownNilAt(v ssa.Value, blk *ssa.BasicBlock) bool {
 		}
 	}
 	return false
+}
+
+// ruleLateEntriesDelegate: every text entry point of pkg that is not among the recorded ones (lateTextEntries) passes
+// each of its text parameters unchanged to a recorded entry point, a text method of the value type or the
+// package-level Parser, in one call whose value it returns; nothing else receives the text. One obligation per late
+// entry, none on today's tree.
+func ruleLateEntriesDelegate(e *Env, rule, pkg string) {
+	guarded := map[*ssa.Function]bool{}
+	for _, n := range parserEntries[pkg] {
+		if f := e.F(pkg, n); f != nil {
+			guarded[flow.Origin(f)] = true
+		}
+	}
+	for _, m := range unmarshalMethods {
+		if m[0] == pkg {
+			if f := e.P.Method(m[0], m[1], m[2]); f != nil {
+				guarded[flow.Origin(f)] = true
+			}
+		}
+	}
+	parserVar := e.V(pkg, "Parser")
+	for _, f := range lateTextEntries(e, pkg) {
+		site := flow.FnName(f)
+		bad := ""
+		for _, pi := range textParamIndices(f) {
+			in := f.Params[pi]
+			delegs := 0
+			for _, b := range f.Blocks {
+				for _, ins := range b.Instrs {
+					ci, ok := ins.(ssa.CallInstruction)
+					if !ok {
+						continue
+					}
+					cc := ci.Common()
+					carries := false
+					for _, a := range cc.Args {
+						if flow.RootParam(a) == in {
+							carries = true
+							if flow.HasSliceOnPath(a) {
+								bad = "hands on a part of its text"
+							}
+						}
+					}
+					if !carries {
+						continue
+					}
+					if bi, isB := cc.Value.(*ssa.Builtin); isB && bi.Name() == "len" {
+						continue
+					}
+					g := e.C.StaticCallee(cc)
+					switch {
+					case g != nil && guarded[flow.Origin(g)]:
+						delegs++
+					case g == nil && parserVar != nil && isLoadOf(cc.Value, parserVar):
+						delegs++
+					default:
+						bad = "hands its text to " + cc.Value.String() + ", not to a recorded input path"
+					}
+				}
+			}
+			if delegs == 0 && bad == "" {
+				bad = "does not hand its text to a recorded input path"
+			}
+		}
+		if bad == "" {
+			e.S.Ok(rule, site, "late entry", "an input path added beside the recorded ones: delegates its text unchanged to one of them", e.Pos(f))
+		} else {
+			e.S.Unk(rule, site, "late entry", "an input path added beside the recorded ones "+bad+": which texts it accepts, and what it returns for them, is not read by this property's rules", e.Pos(f))
+		}
+	}
+}
+
+func isLoadOf(v ssa.Value, g *ssa.Global) bool {
+	ld, ok := v.(*ssa.UnOp)
+	return ok && ld.Op == token.MUL && ld.X == ssa.Value(g)
 }
